@@ -30,6 +30,7 @@ import (
 	"strconv"
 	"strings"
 	"sync"
+	"sync/atomic"
 	"syscall"
 	"time"
 
@@ -523,7 +524,7 @@ func prepare(v *canary.VerifCanary, in HistIn, idx int, f []byte) []byte {
 			dst := net.IPv4(f[30], f[31], f[32], f[33])
 			sport := uint16(f[34])<<8 | uint16(f[35])
 			dport := uint16(f[36])<<8 | uint16(f[37])
-			deadline := time.Now().Add(time.Second)
+			deadline := time.Now().Add(10 * time.Second)
 			for {
 				if si := v.State(src, dst, sport, dport); si != nil {
 					g := append([]byte(nil), f...)
@@ -707,7 +708,8 @@ func runInject(in HistIn) HistObs {
 			}()
 			select {
 			case <-done:
-			case <-time.After(hangWait):
+			case <-time.After(hangWait()):
+				atomic.StoreInt32(&hangSeen, 1)
 				ob.Fatal, ob.FatalAt = siteHang, idx
 				ob.Rets = append(ob.Rets, 3)
 				return false
@@ -748,7 +750,7 @@ func runInject(in HistIn) HistObs {
 	}
 	if alive {
 		want := expectEvents(rest)
-		deadline := time.Now().Add(2 * time.Second)
+		deadline := time.Now().Add(eventWait)
 		for cap.count() < want && time.Now().Before(deadline) {
 			time.Sleep(200 * time.Microsecond)
 		}
@@ -815,9 +817,9 @@ func childMain(path string) {
 	}
 	// the loop handles frames in order: once the probe's event is there, everything
 	// before it has been processed
-	wait := 3 * time.Second
+	wait := hangWaitFirst
 	if in.Rep > 0 {
-		wait = 120 * time.Second
+		wait = 900 * time.Second
 	}
 	deadline := time.Now().Add(wait)
 	for !cap.has(in.Probe) && time.Now().Before(deadline) {
@@ -825,7 +827,7 @@ func childMain(path string) {
 	}
 	ob.SpanMs = time.Since(start).Milliseconds()
 	want := expectEvents(rest)
-	d2 := time.Now().Add(500 * time.Millisecond)
+	d2 := time.Now().Add(eventWait)
 	for cap.count() < want && time.Now().Before(d2) {
 		time.Sleep(500 * time.Microsecond)
 	}
@@ -836,7 +838,23 @@ func childMain(path string) {
 	os.Exit(0)
 }
 
-const hangWait = 2 * time.Second
+// The verdict "hang" is given only after a generous wait: on a loaded machine a goroutine
+// can be descheduled for seconds.  The wait costs time only when there IS a hang; after
+// the first one the remaining cases use the short bound.
+const (
+	hangWaitFirst = 25 * time.Second
+	hangWaitAfter = 2 * time.Second
+	eventWait     = 25 * time.Second // for events that are expected by construction
+)
+
+var hangSeen int32
+
+func hangWait() time.Duration {
+	if atomic.LoadInt32(&hangSeen) != 0 {
+		return hangWaitAfter
+	}
+	return hangWaitFirst
+}
 
 var reGoroutineFn = regexp.MustCompile(`(?m)^([A-Za-z0-9_./\-]+\.[A-Za-z0-9_.()*]+)\(`)
 
@@ -849,7 +867,7 @@ func runChild(in HistIn, scratch string, id int) (HistObs, string) {
 		hx.Fatal("child input: %v", err)
 	}
 	defer os.Remove(path)
-	ctx, cancel := context.WithTimeout(context.Background(), 300*time.Second)
+	ctx, cancel := context.WithTimeout(context.Background(), 1200*time.Second)
 	defer cancel()
 	cmd := exec.CommandContext(ctx, os.Args[0], "-child", path)
 	var so, se bytes.Buffer
@@ -868,7 +886,7 @@ func runChild(in HistIn, scratch string, id int) (HistObs, string) {
 		return ob, ""
 	}
 	if ctx.Err() != nil {
-		return HistObs{FatalAt: -1, Count: -1, Tx: -1}, "child process hung (no result within 300 s)"
+		return HistObs{FatalAt: -1, Count: -1, Tx: -1}, "child process hung (no result within 1200 s)"
 	}
 	stderr := se.String()
 	ob := HistObs{FatalAt: -1, Count: -1, Tx: -1, SpanMs: time.Since(start).Milliseconds()}
@@ -1366,6 +1384,23 @@ func main() {
 	for i := range tins {
 		ob := tobs[i]
 		note := tins[i].Note
+		if ob.DurationMs > tableBudgetMs && ob.PanicAt < 0 {
+			// the expectation "a fresh entry is not idle" is only valid while the history
+			// took less than the 30 s idle limit (a loaded machine can exceed it): only the
+			// operations completed within the budget are judged, the rest is inconclusive
+			k := 0
+			for k < len(ob.Ends) && ob.Ends[k] <= tableBudgetMs {
+				k++
+			}
+			tdist["inconclusive-timing-ops"] += len(tins[i].Ops) - k
+			if k == 0 {
+				tdist["inconclusive-timing-cases"]++
+				continue
+			}
+			tins[i].Ops = tins[i].Ops[:k]
+			ob.Obs, ob.Times, ob.Ends = ob.Obs[:k], ob.Times[:k], ob.Ends[:k]
+			tins[i].Note = note
+		}
 		tdist["kind:"+note]++
 		tdist["ops"] += len(tins[i].Ops)
 		if ob.PanicAt >= 0 {
